@@ -38,6 +38,7 @@ type Run struct {
 type Cfg struct {
 	P1    int                 `json:"p1"`
 	P2    int                 `json:"p2"`
+	P3    int                 `json:"p3,omitempty"` // 0 = WMedian (default), 1 = OrderingNoop (documented "for testing purposes")
 	P4    int                 `json:"p4"`
 	BK    int                 `json:"bk"`
 	P5    int                 `json:"p5"`
